@@ -223,6 +223,54 @@ func addAliases(c *Case, ts *TS, cc *hotline.ClientConn, tree *tnode, parent str
 			file: &diskFile{Dir: d.dir, Name: name, ReqName: []byte(name), Data: tdata, ModTime: tmod}})
 		tree.hasLinks = true
 	}
+	// DANGLING aliases: made by the real handler or the fixture, the target then removed — announced and sent as a file
+	// with an empty data fork (zero dates, default type and creator: nothing can be stat'ed), and the walk goes on
+	for i, m := 0, r.Intn(3); i < m; i++ {
+		d := dirs[r.Intn(len(dirs))]
+		used := map[string]bool{}
+		for _, k := range d.n.kids {
+			used[k.name] = true
+		}
+		name := fmt.Sprintf("gone%d%s", r.Intn(100), r.pickStr(".txt", ".jpg", "", ".zip"))
+		if r.Chance(15) {
+			name = "." + name
+		}
+		if used[name] {
+			continue
+		}
+		gdir := filepath.Join(ts.Root, "outside-targets", fmt.Sprintf("gone-%d", r.Intn(100000)))
+		if os.MkdirAll(gdir, 0755) != nil || os.WriteFile(filepath.Join(gdir, name), genData(r, 1+r.Intn(300)), 0644) != nil {
+			continue
+		}
+		ascii := true
+		for _, cp := range d.comps {
+			ascii = ascii && isASCII(string(cp))
+		}
+		lp := filepath.Join(d.dir, name)
+		if ascii && r.Chance(60) {
+			res, _, pan := ts.Call(cc, mkTran(hotline.TranMakeFileAlias, 9200+uint32(i), fld(hotline.FieldFileName, []byte(name)),
+				fld(hotline.FieldFilePath, encodePathItems([][]byte{[]byte("outside-targets"), []byte(filepath.Base(gdir))})), fld(hotline.FieldFileNewPath, encodePathItems(d.comps))))
+			if pan != nil || len(res) != 1 || res[0].ErrorCode != [4]byte{} {
+				continue
+			}
+			c.Dist("folder-download/dangling-alias-by-handler")
+		} else {
+			if os.Symlink(r.pickStr(filepath.Join(gdir, name), "no/such/relative/target"), lp) != nil {
+				continue
+			}
+			c.Dist("folder-download/dangling-alias-by-fixture")
+		}
+		os.RemoveAll(gdir)
+		if fi, err := os.Lstat(lp); err != nil || fi.Mode()&os.ModeSymlink == 0 {
+			continue
+		}
+		if _, err := os.Stat(lp); err == nil {
+			continue // not dangling after all
+		}
+		d.n.kids = append(d.n.kids, &tnode{name: name, linkTo: "(gone)",
+			file: &diskFile{Dir: d.dir, Name: name, ReqName: []byte(name), Data: []byte{}, Dangling: true}})
+		tree.hasLinks = true
+	}
 	// aliases of FOLDERS: one folder item without children, whatever the target holds (the walk does not descend)
 	outDir := filepath.Join(ts.Root, "outside-targets", fmt.Sprintf("dir%d", r.Intn(1000)))
 	os.MkdirAll(filepath.Join(outDir, "inner"), 0755)
@@ -1587,7 +1635,7 @@ func runC10Regressions(c *Case) {
 
 func init() {
 	props["C10"] = func(x *Ctx) {
-		x.rule = "folder-download: 4 trees per case (depth ≤ 4, fan-out ≤ 5, ≤ 60 entries — 30% of the cases one tree with fan-out ≤ 7 and up to 150 entries —, empty folders, dot-files and dot-folders with visible entries below them, names chosen to separate per-directory byte order from whole-path order, file sizes 0..100 KiB (thorough 200 KiB), optional .info_/.rsrc_ side files, requested at the root or one level down; half of the trees additionally hold 1..4 aliases of files — made by the real Make Alias transaction or placed by the fixture, visible and dot-named, pointing inside or outside the tree — which must be sent as files carrying the target's bytes — and 0..2 aliases of FOLDERS (inside or outside the tree, made by the handler or the fixture), each of which must be announced as one folder item without children), each downloaded under 3 action scripts (all send; mixed send/resume/next; resume-heavy or all next; resume offsets 0,1,size-1,size,random; 12% of the runs the client disconnects at an item header or after a file). folder-upload: 4 client trees per case streamed in client order into an empty, partly or largely pre-populated folder (existing folders, complete files with equal, other or EMPTY contents, partial files holding a prefix; 40% of the uncut uploads are streamed a second time), 45% cut inside a file item (before the size, inside the header, at header end ±1, mid data, last byte) followed by a second complete session. folder-roundtrip: upload into an empty folder, then download with all-send. long-names: folders named with 252, 253, 254 and 255 bytes (nested, with files named with up to 244 bytes = NAME_MAX minus the .incomplete suffix) uploaded and downloaded again, and stored files named with 252..255 bytes downloaded. non-trivial = a file item whose bytes were transferred (download) / a session that streamed at least one item (upload); distinct = distinct (path, size, action, fork combination) resp. (items, pre-population, cut)"
+		x.rule = "folder-download: 4 trees per case (depth ≤ 4, fan-out ≤ 5, ≤ 60 entries — 30% of the cases one tree with fan-out ≤ 7 and up to 150 entries —, empty folders, dot-files and dot-folders with visible entries below them, names chosen to separate per-directory byte order from whole-path order, file sizes 0..100 KiB (thorough 200 KiB), optional .info_/.rsrc_ side files, requested at the root or one level down; half of the trees additionally hold 1..4 aliases of files — made by the real Make Alias transaction or placed by the fixture, visible and dot-named, pointing inside or outside the tree — which must be sent as files carrying the target's bytes — and 0..2 aliases of FOLDERS (inside or outside the tree, made by the handler or the fixture), each of which must be announced as one folder item without children, and 0..2 DANGLING aliases (target removed after Make Alias, or fixture links to nothing), each of which must be sent as a file with an empty data fork while the walk goes on), each downloaded under 3 action scripts (all send; mixed send/resume/next; resume-heavy or all next; resume offsets 0,1,size-1,size,random; 12% of the runs the client disconnects at an item header or after a file). folder-upload: 4 client trees per case streamed in client order into an empty, partly or largely pre-populated folder (existing folders, complete files with equal, other or EMPTY contents, partial files holding a prefix; 40% of the uncut uploads are streamed a second time), 45% cut inside a file item (before the size, inside the header, at header end ±1, mid data, last byte) followed by a second complete session. folder-roundtrip: upload into an empty folder, then download with all-send. long-names: folders named with 252, 253, 254 and 255 bytes (nested, with files named with up to 244 bytes = NAME_MAX minus the .incomplete suffix) uploaded and downloaded again, and stored files named with 252..255 bytes downloaded. non-trivial = a file item whose bytes were transferred (download) / a session that streamed at least one item (upload); distinct = distinct (path, size, action, fork combination) resp. (items, pre-population, cut)"
 		x.assume = []string{
 			"root folder names are visible (no leading dot); names ending in .incomplete or starting with .info_/.rsrc_ are not generated (the on-disk naming scheme cannot tell them from partial/side files)",
 			"resume of a file with a stored resource fork, and a resource fork without an information fork, are compared with the model as coded (DESIGN §7 C08 'not covered': resume of the resource fork); the size-prefix clause is judged directly only without a stored resource fork or for 'send'",
